@@ -124,7 +124,7 @@ pub enum Mode {
 #[derive(Clone, Debug, Serialize, Deserialize, PartialEq)]
 pub struct Scenario {
     pub cfg: SimCfg,
-    /// generated with the trigger of known finding O2 avoided
+    /// historical (O2 guard, removed once the defect was fixed); always false in generated scenarios
     pub guarded: bool,
     pub hosts: usize,
     pub conns: Vec<ConnSpec>,
@@ -236,7 +236,8 @@ fn gen_end(rng: &mut Rng, small: bool, lat: u64) -> EndSpec {
 }
 
 fn gen_scenario(rng: &mut Rng) -> Scenario {
-    let guarded = !rng.chance(1, 20);
+    // (O2 is fixed in /repo: nothing is steered away from a FIN that reaches a full receive queue)
+    let guarded = false;
     let mut cfg = SimCfg::gen(rng, &CfgProfile { latency_range: true, random_failures: false, small_capacities: true, max_tick_ms: 20, max_latency_ticks: 12 });
     cfg.fail_rate_pm = 0;
     let lat = cfg.max_latency_ticks();
@@ -293,34 +294,7 @@ fn gen_scenario(rng: &mut Rng) -> Scenario {
         }
         Mode::Latency
     };
-    let mut sc = Scenario { cfg, guarded, hosts, conns, mode, script, enumerate: owned };
-    if guarded {
-        // keep clear of the trigger of O2 (DESIGN section 2): repair every exposed direction
-        for _ in 0..16 {
-            let ex = o2_exposed(&sc);
-            let Some(&(ci, dir)) = ex.first() else { break };
-            let hold = sc.script.iter().any(|(_, a)| matches!(a, LinkAct::Hold(..)));
-            let can_time = matches!(sc.mode, Mode::Latency) && !hold;
-            let segs = sc.conns[ci].end(dir).segs();
-            let bigger = [2usize, 3, 8, 64].into_iter().find(|c| *c > segs);
-            match rng.below(3) {
-                0 if can_time => {
-                    let need = sc.conns[ci].end(1 - dir).reader_sleep() + lat + 3;
-                    let w = sc.conns[ci].end_mut(dir);
-                    if w.fin == Fin::None {
-                        w.fin = Fin::Shutdown;
-                    }
-                    w.fin_delay = need as u16;
-                }
-                1 if bigger.is_some() => sc.cfg.tcp_capacity = bigger.unwrap(),
-                _ => {
-                    let w = sc.conns[ci].end_mut(dir);
-                    w.fin = Fin::None;
-                    w.keep = true;
-                }
-            }
-        }
-    }
+    let sc = Scenario { cfg, guarded, hosts, conns, mode, script, enumerate: owned };
     sc
 }
 
@@ -1263,7 +1237,6 @@ fn execute(sc: &Scenario, keep: bool) -> (Report, RunInfo) {
     }
 
     probes.merge(&sh.probes.borrow());
-    probes.inc(if sc.guarded { "generated_guarded" } else { "generated_unguarded" });
     if ended == End::Cap && !sh.partitioned.get() && holds.is_empty() {
         probes.inc("step_cap_reached");
     }
@@ -1369,7 +1342,7 @@ impl Property for C02 {
         vec![
             "liveness is judged only for connections on which no end drops its read side before it observed end-of-file (otherwise a reset may legitimately cut the stream short), without any partition, with every hold released".into(),
             "a connection refused although no partition was imposed is reported as a harness error here (pairing/refusal is C12's subject)".into(),
-            "95% of the scenarios are generated with the trigger of known finding O2 (FIN reaching a full receive queue) avoided: fewer data segments than tcp_capacity, or a FIN delayed until the reader must have drained; 5% are unguarded".into(),
+            "no generator guard: the former known finding O2 (FIN reaching a full receive queue) is fixed in /repo (650a8d3); the probe fin_arrived_queue_full counts how often the trigger is reached".into(),
         ]
     }
     fn budget(tier: Tier) -> u64 {
@@ -1503,9 +1476,6 @@ impl Property for C02 {
         }
         for cfg in cfgs {
             out.push(Scenario { cfg, ..sc.clone() });
-        }
-        if sc.guarded {
-            out.retain(|c| o2_exposed(c).is_empty());
         }
         out
     }
